@@ -517,8 +517,12 @@ func writeTypeConversion(w *formatting.IndentedWriter, typeChange dsl.TypeChange
 
 			overflowCheck := ""
 			if dsl.GetPrimitiveKind(oldPrim) == dsl.PrimitiveKindFloatingPoint {
-				if dsl.GetPrimitiveKind(newPrim) == dsl.PrimitiveKindInteger ||
-					(dsl.GetPrimitiveKind(newPrim) == dsl.PrimitiveKindFloatingPoint && dsl.GetPrimitiveWidth(oldPrim) > dsl.GetPrimitiveWidth(newPrim)) {
+				if dsl.GetPrimitiveKind(newPrim) == dsl.PrimitiveKindInteger {
+					// The limits of an integer type are not all representable in floating point (max() of int32_t becomes 2^31 as a
+					// float), so the rounded value is compared with the exact powers of two that bound the type; NaN fails as well.
+					newType := common.TypeSyntax(tc.NewType())
+					overflowCheck = fmt.Sprintf("if (!(std::round(%s) >= static_cast<double>(std::numeric_limits<%s>::lowest()) && std::round(%s) < std::ldexp(1.0, std::numeric_limits<%s>::digits))) {\n", rhs, newType, rhs, newType)
+				} else if dsl.GetPrimitiveKind(newPrim) == dsl.PrimitiveKindFloatingPoint && dsl.GetPrimitiveWidth(oldPrim) > dsl.GetPrimitiveWidth(newPrim) {
 					overflowCheck = fmt.Sprintf("if (%s > std::numeric_limits<%s>::max() || %s < std::numeric_limits<%s>::lowest()) {\n", rhs, common.TypeSyntax(tc.NewType()), rhs, common.TypeSyntax(tc.NewType()))
 				}
 			}
